@@ -44,7 +44,6 @@ package model
 //@ spec rec prefix func cellcount(rows [][]Cell, n int) int = n <= 0 ? 0 : cellcount(rows, n - 1) + len(rows[n-1])
 //@ func (*Table) ToMarkdown results (res)
 //@   property C15, C12
-//@   flags nosafety
 //@   count cells: escapeMarkdownCell(s) when true
 //@   callsite WriteString(s) requires cell_or_structure: s == "| " || s == " " || s == "|" || s == "\n" || s == "|---" || (forall k int :: {s[k]} 0 <= k && k < len(s) ==> s[k] != 10 && (s[k] == '|' ==> k >= 1 && s[k-1] == 92))
 //@   callsite escapeMarkdownCell#1(s) requires header_cell_in_place: s == t.Rows[0][$i].Text
@@ -73,7 +72,6 @@ package model
 // (the source page number stamped on the page, not the page's position in a selection) ----
 //@ func (*Document) TableOfContents results (res)
 //@   property C10, C12
-//@   flags nosafety
 //@   loop 1:
 //@     step entry_of_this_heading_on_this_page: len(toc) == prev(len(toc)) + 1 && toc[len(toc)-1].Page == page.Number && toc[len(toc)-1].Level == h.Level && toc[len(toc)-1].Text == h.Text
 //@     step earlier_entries_kept: forall k int :: {toc[k]} 0 <= k && k < prev(len(toc)) ==> toc[k] == prev(toc)[k]
